@@ -61,7 +61,7 @@ CHECKS = {
    ref="DESIGN.md §4 C11"),
  "C12": dict(
    technique="property-based testing of the CLI as a subprocess against the in-process library (differential) with injected input/output faults",
-   text="4000 (quick) / 80000 (thorough) process runs over input kinds x options x output kinds; exit status, stdout, stderr and output file bytes compared with header + library rendering or with the clean-failure contract. Plus a fixed buffer-boundary family (multi-byte characters around 4096..65536, outputs of exactly 4096/8192/16384 bytes); output paths include symbolic links and the input file itself; inputs include a pipe (/dev/stdin) besides regular, damaged, non-UTF-8, missing, directory and empty files.",
+   text="4000 (quick) / 80000 (thorough) process runs over input kinds x options x output kinds; exit status, stdout, stderr and output file bytes compared with header + library rendering or with the clean-failure contract. Plus a fixed buffer-boundary family (multi-byte characters around 4096..65536, outputs of exactly 4096/8192/16384 bytes); output paths include symbolic links, the input file itself, /dev/null and a named pipe with a reader; inputs include a pipe (/dev/stdin) besides regular, damaged, non-UTF-8, missing, directory and empty files.",
    note="Runs as root: permission faults replaced by structural faults; binary rebuilt from the working tree by ./check.",
    ref="DESIGN.md §4 C12"),
  "C14": dict(
